@@ -57,9 +57,9 @@ PURE = (" Theorems are proved on ReactivePure (the propagation loop with pure ex
         "ReactivePure is tied to Reactive/Interp.v by an executable bridge evaluated on 1500 write prefixes per run, and Interp to the code by the correspondence. ")
 _R = {
     "C01": ("proof", "5.C01", "after every top-level write/batch every live pure tracked-only computation holds what its function yields from the current values (from-scratch re-evaluation).",
-            PURE + "PARTIAL proof: C01_loop_consistent_partial / C01_loop_invariant prove, for every schedule satisfying the invariant Inv (topological, closed under dependents, all dirty nodes scheduled, symmetric edges) and every late-read-free trace, that after the loop nothing is dirty and every computation is consistent; that the depth-first pass establishes Inv is NOT proved (checked only by correspondence), and the statement without the late-read hypothesis is refuted by C01_late_read_refuted (known finding F1)."),
+            PURE + "Proved on ReactivePure for a WHOLE write and any history of writes (C01Write.v): the depth-first pass, started from a freshly written signal of a quiescent state with its fuel, neither runs out of fuel nor reports a cycle, changes only marks and establishes the loop invariant Inv (C01_dfs_establishes_inv); a late-read-free write (or batch flush) leads from a quiescent state (marks reset, nothing dirty, symmetric edges, every computation consistent with the current values, acyclic) to a quiescent state (C01_write_consistent, C01_batch_consistent), hence so does every sequence of writes (C01_writes_consistent); quiescent states are closed under node creation; a tracked-only memo of a quiescent state holds exactly what its function yields from the current values. The late-read hypothesis LRF cannot be dropped: C01_late_read_refuted / C01_write_consistent_without_lrf_refuted are known finding F1. The pure depth-first pass is compared with Interp's on every bridge evaluation (same schedule, same result)."),
     "C02": ("proof", "5.C02", "per propagation: each computation runs at most once, reads only settled derived values, and re-runs only if one of its previous subscriptions fired.",
-            PURE + "PARTIAL proof: one trace entry per scheduled node and NoDup schedule (at most one run), a node runs only if dirty, one-step preservation of the invariant (C02_step); 'reads are settled' follows from C01's cons clause under the late-read hypothesis; the fired-set characterisation is judged by the oracle only."),
+            PURE + "Proved for a whole write from a quiescent state (ReactivePure/Glitch.v): the schedule has no duplicates, one trace entry per scheduled node, only nodes reachable from the written signal (C02_write_schedule: at most one run per write); when a node runs, every node it reads with tracking, and every dependency of such a node, is settled -- no longer scheduled, not dirty, consistent, holding its final value (C02_write_reads_settled); a node runs IF AND ONLY IF one of the dependencies it had before the write is the written signal or a computation that ran earlier in this propagation and changed (C02_write_runs_only_if_fired, C02_write_runs_if_fired; selectors that compare equal do not fire). All under the late-read hypothesis (F1). Untracked reads are outside the guarantee, in model and code alike (C02_untracked_read_sees_stale_value = known finding F19)."),
     "C03": ("proof", "5.C03", "after each run the subscriptions equal the specification-level tracked reads of that run (untracked forms never subscribe) and every subscriber of a fired node re-runs.",
             PURE + "Proved: C03_run_node_spec (after a run the dependency list is exactly the tracked reads of that evaluation, old links removed, new links added, nobody else's change), untracked reads never enter it, symmetric edges through a whole propagation. The untracked *forms* (untrack, on, component, cleanup) exist only in Interp and are covered by correspondence + oracle, not by a theorem."),
     "C16": ("proof", "5.C16", "every use_context returns the nearest enclosing provision according to a reference walk over the program's scope tree, duplicates panic.",
